@@ -229,6 +229,21 @@ def show(v):
     return repr(v)
 
 
+def is_exact(v):
+    """the abstract value carries no unknown part (no opaque term, no unknown bit)"""
+    if isinstance(v, Bits):
+        return not v.has_top()
+    if isinstance(v, (Sym, Lin, CondV, Comp)):
+        return False
+    if isinstance(v, (list, tuple)):
+        return all(is_exact(x) for x in v)
+    if isinstance(v, BytesV):
+        return all(b != TOP for by in v.bytes for b in by)
+    if isinstance(v, StrV):
+        return all(is_exact(c) for c in v.chars)
+    return True
+
+
 def as_bits(v):
     if isinstance(v, Bits):
         return v
@@ -252,6 +267,7 @@ class Interp:
         self.fresh_counter = itertools.count()
         self.steps = 0
         self.path = []  # (condition text, outcome) for choice splits
+        self._yields = []  # stack of yield collectors (generator functions are evaluated eagerly)
         self.max_split = MAX_SPLIT_BITS  # widest set of source bits enumerated for one condition
 
     # ------------------------------------------------------------------
@@ -275,6 +291,11 @@ class Interp:
         a = func.node.args
         params = [x.arg for x in a.posonlyargs + a.args]
         vals = list(args)
+        decos = {d.id if isinstance(d, ast.Name) else getattr(d, "attr", None) for d in func.node.decorator_list}
+        if "staticmethod" in decos:
+            recv = None
+        elif "classmethod" in decos and func.cls is not None:
+            recv = Ref("class", recv.cls if isinstance(recv, Obj) and recv.cls is not None else func.cls)
         if recv is not None:
             vals = [recv] + vals
         defaults = list(a.defaults)
@@ -297,12 +318,17 @@ class Interp:
                 env[kw.arg] = self.eval(d, {}, func)
         env["__func__"] = func
         self.depth += 1
+        is_gen = _is_generator(func.node)
+        if is_gen:
+            self._yields.append([])
         try:
             self.exec_block(func.node.body, env, func)
-            return None
+            return self._yields[-1] if is_gen else None
         except _Return as r:
-            return r.value
+            return self._yields[-1] if is_gen else r.value
         finally:
+            if is_gen:
+                self._last_yields = self._yields.pop()
             self.depth -= 1
 
     # ------------------------------------------------------------------
@@ -630,6 +656,25 @@ class Interp:
     def e_Constant(self, e, env, func):
         return e.value
 
+    def e_Yield(self, e, env, func):
+        v = self.eval(e.value, env, func) if e.value is not None else None
+        h = self.hooks.get("yield")
+        if h:
+            h(self, v, e, func)
+        if self._yields:
+            self._yields[-1].append(v)
+        return None
+
+    def e_YieldFrom(self, e, env, func):
+        v = self.eval(e.value, env, func)
+        seq = self.concrete_iter(v)
+        if seq is None:
+            seq = [Sym("yield-from", v)]
+        for x in seq:
+            if self._yields:
+                self._yields[-1].append(x)
+        return None
+
     def e_Name(self, e, env, func):
         if e.id in env:
             return env[e.id]
@@ -701,6 +746,9 @@ class Interp:
                     return v
             f = cls.lookup(attr)
             if f is not None:
+                decos = {d.id if isinstance(d, ast.Name) else getattr(d, "attr", None) for d in f.node.decorator_list}
+                if "classmethod" in decos:
+                    return Bound(Obj(cls, cls.name), f)
                 return Ref("func", f)
         if isinstance(base, EnumVal) and attr == "value":
             return int(base)
@@ -759,7 +807,7 @@ class Interp:
             return not self.truth(v, e.operand, func)
         b = as_bits(v)
         if isinstance(e.op, ast.Invert) and b is not None:
-            return ~b
+            return ~(b.subst(self.asg) if self.asg else b)
         if isinstance(e.op, ast.USub):
             if isinstance(v, (int, float)) and not isinstance(v, bool):
                 return -v
@@ -812,6 +860,9 @@ class Interp:
             return Sym("strop", type(op).__name__, a, b)
         ba, bb = as_bits(a), as_bits(b)
         if ba is not None and bb is not None:
+            if self.asg:
+                # refinements made on this path (pinned source bits) apply to values created earlier as well
+                ba, bb = ba.subst(self.asg), bb.subst(self.asg)
             if isinstance(op, ast.BitAnd):
                 return ba & bb
             if isinstance(op, ast.BitOr):
@@ -1168,6 +1219,20 @@ class Interp:
         return self.call_value(callee, name, args, kwargs, e, env, func)
 
     def call_value(self, callee, name, args, kwargs, e, env, func):
+        if isinstance(callee, PartialV):
+            kw = dict(callee.kwargs)
+            kw.update(kwargs or {})
+            return self.call_value(callee.func, None, callee.args + list(args), kw, e, env, func)
+        if name == "partial" and args and (func is None or func.module.imports.get("partial", ("functools", "partial"))[0] == "functools"):
+            return PartialV(args[0], args[1:], kwargs)
+        if isinstance(callee, (Ref, Bound)):
+            h = self.hooks.get("func")
+            if h:
+                target = callee.obj if isinstance(callee, Ref) else callee.func
+                if not isinstance(callee, Ref) or callee.kind == "func":
+                    r = h(self, target, args, kwargs, e, func)
+                    if r is not NotImplemented:
+                        return r
         if isinstance(callee, LambdaV):
             env2 = dict(callee.env)
             a = callee.node.args
@@ -1177,11 +1242,17 @@ class Interp:
         if isinstance(callee, Bound):
             return self.call_function(callee.func, args, kwargs, recv=callee.recv)
         if isinstance(callee, Ref) and callee.kind == "func":
-            if self.hooks.get("inline_funcs") and callee.obj.qualname in self.hooks["inline_funcs"]:
+            inl = self.hooks.get("inline_funcs")
+            if inl and (callee.obj.qualname in inl or (inl == "module" or (isinstance(inl, set) and "*module*" in inl)) and func is not None and callee.obj.module is func.module):
                 return self.call_function(callee.obj, args, kwargs)
             return Sym("call", callee.obj.qualname, *args)
         if isinstance(callee, Ref) and callee.kind == "class":
             cls = callee.obj
+            hc = self.hooks.get("construct")
+            if hc:
+                r = hc(self, cls, args, kwargs, e, func)
+                if r is not NotImplemented:
+                    return r
             if self.folder.is_enum(cls) and len(args) == 1:
                 v = _int(args[0])
                 if isinstance(v, int):
@@ -1204,6 +1275,13 @@ class Interp:
         return Sym("call", name or ast.unparse(e.func)[:40], *args)
 
     def call_method(self, recv, name, args, kwargs, e, env, func):
+        if isinstance(recv, Ref) and recv.kind == "class":
+            f = recv.obj.lookup(name)
+            if f is not None:
+                decos = {d.id if isinstance(d, ast.Name) else getattr(d, "attr", None) for d in f.node.decorator_list}
+                if "classmethod" in decos:
+                    return self.call_value(Bound(Obj(recv.obj, recv.obj.name), f), None, args, kwargs, e, env, func)
+                return self.call_value(Ref("func", f), None, args, kwargs, e, env, func)
         if isinstance(recv, Obj):
             f = recv.cls.lookup(name) if recv.cls else None
             if f is not None:
@@ -1211,6 +1289,8 @@ class Interp:
             if name in recv.attrs:
                 return self.call_value(recv.attrs[name], name, args, kwargs, e, env, func)
             return Sym("call", "%s.%s" % (recv.name, name), *args)
+        if isinstance(recv, Sym) and recv.op in ("module", "name") and recv.args[0] == "functools" and name == "partial" and args:
+            return PartialV(args[0], args[1:], kwargs)
         if isinstance(recv, StreamV):
             if name == "read" and args and isinstance(_int(args[0]), int) and isinstance(recv.pos, int):
                 n = _int(args[0])
@@ -1256,6 +1336,10 @@ class Interp:
                 return self.struct_pack(args[0], args[1:], e, func)
             if name == "calcsize" and isinstance(args[0], str):
                 return _struct.calcsize(args[0])
+            if name == "Struct" and len(args) == 1:
+                if isinstance(args[0], str):
+                    return PackerV(args[0])
+                raise AnalysisError("%s: struct.Struct format %s is not a constant in the abstract domain" % (func.loc(e), show(args[0])[:80]))
         if isinstance(recv, StrV):
             if name == "split" and len(args) == 1 and isinstance(args[0], str) and args[0]:
                 sep = [ord(c) for c in args[0]]
@@ -1434,6 +1518,23 @@ class LambdaV:
 _OPS = {"Eq": ast.Eq, "NotEq": ast.NotEq, "Lt": ast.Lt, "LtE": ast.LtE, "Gt": ast.Gt, "GtE": ast.GtE}
 
 
+def _is_generator(fnode):
+    stack = list(fnode.body)
+    while stack:
+        n = stack.pop()
+        if isinstance(n, (ast.Yield, ast.YieldFrom)):
+            return True
+        if isinstance(n, (ast.FunctionDef, ast.AsyncFunctionDef, ast.Lambda, ast.ClassDef)):
+            continue
+        stack.extend(ast.iter_child_nodes(n))
+    return False
+
+
+class PartialV:
+    def __init__(self, func, args, kwargs):
+        self.func, self.args, self.kwargs = func, list(args), dict(kwargs or {})
+
+
 def _as_bytesv(v):
     if isinstance(v, BytesV):
         return v
@@ -1509,6 +1610,23 @@ def _b_int(it, args, kwargs, e, func):
     return Sym("int", *args)
 
 
+def _b_enumerate(it, args, kwargs, e, func):
+    seq = it.concrete_iter(args[0]) if args else None
+    if seq is None:
+        return Sym("enumerate", *args)
+    start = _int(args[1]) if len(args) > 1 else _int((kwargs or {}).get("start", 0))
+    if not isinstance(start, int):
+        return Sym("enumerate", *args)
+    return [(start + i, x) for i, x in enumerate(seq)]
+
+
+def _b_zip(it, args, kwargs, e, func):
+    seqs = [it.concrete_iter(a) for a in args]
+    if any(s_ is None for s_ in seqs):
+        return Sym("zip", *args)
+    return [tuple(t) for t in zip(*seqs)]
+
+
 def _b_isinstance(it, args, kwargs, e, func):
     v, t = args[0], args[1] if len(args) > 1 else None
     if isinstance(t, Sym) and t.op == "name" and t.args[0] in ("str", "int", "bytes", "list", "tuple", "dict"):
@@ -1556,7 +1674,7 @@ def _b_chr(it, args, kwargs, e, func):
     return Sym("chr", v)
 
 
-_BUILTINS = {"len": _b_len, "range": _b_range, "int": _b_int, "isinstance": _b_isinstance, "ord": _b_ord, "chr": _b_chr}
+_BUILTINS = {"len": _b_len, "range": _b_range, "int": _b_int, "isinstance": _b_isinstance, "ord": _b_ord, "chr": _b_chr, "enumerate": _b_enumerate, "zip": _b_zip}
 for _n in ("abs", "min", "max", "str", "float", "bool", "hex", "sorted", "list", "tuple", "bytes", "bytearray", "repr", "sum", "round", "pow"):
     _BUILTINS[_n] = _b_simple(_n)
 
